@@ -224,6 +224,7 @@ class Executor:
         self._alone = {}
         self.havoc_calls = {}         # oid -> (callee, args)
         self.havoc_snap = {}          # oid -> argument values at call time
+        self.havoc_raw = {}           # oid -> callee as spelled in the MIR (with generic arguments)
         self.n_checks = 0
         self.solver_s = 0.0
         self.byname = {}
@@ -1183,6 +1184,7 @@ class Executor:
             if isinstance(v, Lazy):
                 self.havoc_calls[v.oid] = (name, args)
                 self.havoc_snap[v.oid] = snap
+                self.havoc_raw[v.oid] = callee
         st.trace.append(("havoc", name, args, v, snap))
         return v
 
